@@ -365,6 +365,17 @@ def replay(unit, obl):
             d = pickle.loads(pickle.dumps(c))
             _ = d.time_dependent, d._cache, d._use_cache
             _ = c._use_cache
+            # saving must not change the object that was saved: it still equals its copy, still evaluates, and can be saved again
+            if len(dims(a, b)) <= 1:
+                x, y, z, t = PTS[0]
+                if dims(a, b) == {2}:
+                    z = None
+                v_c = c(x, y, z, t=t) if want_td else c(x, y, z)
+                v_d = d(x, y, z, t=t) if want_td else d(x, y, z)
+                d2 = pickle.loads(pickle.dumps(c))
+                v_d2 = d2(x, y, z, t=t) if want_td else d2(x, y, z)
+                if not (c == d and abs(v_c - v_d) <= 1e-12 and abs(v_c - v_d2) <= 1e-12):
+                    problems.append(f"{a} {o} {b}: after pickling once the original differs from its copy (values {v_c}, {v_d}, second copy {v_d2})")
         except Exception as e:
             problems.append(f"{a} {o} {b}: {type(e).__name__}: {e}")
     if problems:
